@@ -246,7 +246,11 @@ def run_case(ctx, case, rng):
       ctx.count('target_not_runnable_left_to_C01')
       return
     try:
-      res = run.qt.validate(test, metric, use_reference_kernel=REFERENCE_KERNELS[0])
+      one_shot = bool(case % 5 == 3)      # the API takes Iterables: hand it generators that can be walked once
+      if one_shot:
+        ctx.count('validate_calls_with_one_shot_iterators')
+      res = run.qt.validate({k_: (x_ for x_ in v_) for k_, v_ in test.items()} if one_shot else test, metric,
+                            use_reference_kernel=REFERENCE_KERNELS[0])
     except Exception as e:  # pylint: disable=broad-except
       ctx.violation('validate_raised', {'exc': common.exc_signature(e)[:80], 'metric': metric,
                                         'duplicate_output': 'duplicate_output' in spec.classes,
